@@ -58,18 +58,27 @@ class TieredInterval:
     def __lt__(self, other: TieredInterval):
         assert len(self) == len(other)
         assert self.pre_length == other.pre_length
+        # Between the two cutoffs, one interval adds to the tier of the
+        # departure time while the other one replaces it. If the tiers
+        # are equal there, the adding interval arrives at the same time
+        # or later (depending on the departure time), so from then on
+        # it can only be the larger one.
+        s_not_less = False
+        o_not_less = False
         for i, (s, o) in enumerate(zip(self.tiers, other.tiers)):
             s_add_o_ext = other.cutoff <= i < self.cutoff
             o_add_s_ext = self.cutoff <= i < other.cutoff
             if s < o:
-                if s_add_o_ext:
+                if s_add_o_ext or s_not_less:
                     assert False, f"{self} and {other} are incomparable"
                 return True
             if o < s:
-                if o_add_s_ext:
+                if o_add_s_ext or o_not_less:
                     assert False, f"{self} and {other} are incomparable"
                 return False
-        return False
+            s_not_less = s_not_less or s_add_o_ext
+            o_not_less = o_not_less or o_add_s_ext
+        return o_not_less
 
     def __repr__(self):
         return (
